@@ -11,10 +11,13 @@
 (* provider call, auth.fetched, auth.written).                             *)
 (* Recheck = FALSE switches the in-lock re-read off: the design without    *)
 (* double-checked locking, which TLC must refute (vacuity guard and source *)
-(* of attack schedules).                                                   *)
+(* of attack schedules).  WriteInLock = FALSE releases the lock right      *)
+(* after the provider call, i.e. the cache entry is written outside the    *)
+(* critical section - the second plausible regression of this code, also   *)
+(* refuted by TLC and also turned into an attack schedule.                 *)
 (***************************************************************************)
 EXTENDS Naturals, Sequences, FiniteSets, TLC
-CONSTANTS Threads, Keys, R, MaxTime, MaxCalls, Recheck
+CONSTANTS Threads, Keys, R, MaxTime, MaxCalls, Recheck, WriteInLock
 None == [data |-> 0, expires |-> 0, set |-> FALSE]
 VARIABLES cache, lock, pc, key, now, fetches, calls, returned
 vars == <<cache, lock, pc, key, now, fetches, calls, returned>>
@@ -35,9 +38,10 @@ ReRead(t) == /\ pc[t] = "reread"
                 ELSE pc' = [pc EXCEPT ![t] = "fetch"] /\ UNCHANGED <<lock, returned>>
              /\ UNCHANGED <<cache, key, now, fetches, calls>>
 Fetch(t) == /\ pc[t] = "fetch" /\ fetches' = Append(fetches, [k |-> key[t], at |-> now]) /\ pc' = [pc EXCEPT ![t] = "write"]
-            /\ UNCHANGED <<cache, lock, key, now, calls, returned>>
+            /\ lock' = IF WriteInLock THEN lock ELSE 0
+            /\ UNCHANGED <<cache, key, now, calls, returned>>
 Write(t) == /\ pc[t] = "write" /\ cache' = [cache EXCEPT ![key[t]] = [data |-> Len(fetches), expires |-> now + R, set |-> TRUE]]
-            /\ lock' = 0 /\ pc' = [pc EXCEPT ![t] = "idle"] /\ Ret(t, Len(fetches))
+            /\ lock' = (IF WriteInLock THEN 0 ELSE lock) /\ pc' = [pc EXCEPT ![t] = "idle"] /\ Ret(t, Len(fetches))
             /\ UNCHANGED <<key, now, fetches, calls>>
 Tick == /\ now < MaxTime /\ now' = now + 1 /\ UNCHANGED <<cache, lock, pc, key, fetches, calls, returned>>
 Next == Tick \/ \E t \in Threads : Read(t) \/ Acquire(t) \/ ReRead(t) \/ Fetch(t) \/ Write(t) \/ \E k \in Keys : Call(t, k)
@@ -48,6 +52,6 @@ FetchOnce == FetchOnceOf(fetches)
 (* what a caller gets is the token of the most recent fetch of its key *)
 LatestFetch(f, k) == IF \E i \in 1..Len(f) : f[i].k = k THEN CHOOSE i \in 1..Len(f) : f[i].k = k /\ \A j \in 1..Len(f) : f[j].k = k => j <= i ELSE 0
 ReturnsFresh == \A i \in 1..Len(returned) : returned[i].data # 0 /\ fetches[returned[i].data].k = returned[i].k
-MutualExclusion == Cardinality({t \in Threads : pc[t] \in {"reread", "fetch", "write"}}) <= 1
+MutualExclusion == WriteInLock => Cardinality({t \in Threads : pc[t] \in {"reread", "fetch", "write"}}) <= 1
 LockOwner == lock # 0 => pc[lock] \in {"reread", "fetch", "write"}
 =============================================================================
